@@ -129,11 +129,14 @@ pub fn check_body(m: &str, inputs: &[String], glr: bool) -> String {
     body
 }
 
-pub fn emit(krate: &mut Crate, g: &AstG, sents: &[Sentence], rep: &mut Rep, group: usize) {
+pub fn emit(krate: &mut Crate, g: &AstG, sents: &[Sentence], rep: &mut Rep, group: usize, lexamb: bool) {
     let text = g.text();
     let ag = g.desugar();
     let countable = ag.reduced() && ag.glr_scope();
     for glr in [false, true] {
+        if lexamb && !glr {
+            continue;
+        }
         if glr && !countable {
             // cyclic / epsilon-ambiguous expansion: forests may be cyclic or huge (outside C03's scope)
             rep.count("glr_skipped_out_of_scope", 1);
@@ -146,9 +149,13 @@ pub fn emit(krate: &mut Crate, g: &AstG, sents: &[Sentence], rep: &mut Rep, grou
         }
         for loc in [false, true] {
             let m = format!("g{}", krate.modules.len());
-            let spec = SetSpec { glr, builder: 0, loc_info: loc, ps: if glr { None } else { Some(true) }, ..Default::default() };
+            // lexamb: longest match off, so that the GLR forest holds trees over different tokenisations
+            let spec = SetSpec { glr, builder: 0, loc_info: loc, ps: if glr { None } else { Some(true) }, lm: !lexamb, ..Default::default() };
             let c = generate_into(&krate.src(), &m, &text, &spec);
             rep.count("evaluations", 1);
+            if lexamb {
+                rep.count("lexically_ambiguous_modules", 1);
+            }
             if !c.outcome.is_ok() {
                 rep.count("rejected_by_compiler", 1);
                 for sfx in [".rustemo", ".rs", "_actions.rs"] {
@@ -164,7 +171,7 @@ pub fn emit(krate: &mut Crate, g: &AstG, sents: &[Sentence], rep: &mut Rep, grou
                 check_fn: wrap_check_fn(&m, &body),
                 expected: vec![],
                 info: json!({"grammar": text, "settings": spec.to_json(), "group": group,
-                    "sentences": sents.iter().map(|s| json!({"input": s.input, "content": s.content, "spans": s.spans, "unique": s.unique, "bools": s.bools,
+                    "sentences": sents.iter().map(|s| json!({"lexamb": lexamb, "input": s.input, "content": s.content, "spans": s.spans, "unique": s.unique, "bools": s.bools,
                         "absent_opts": s.absent_opts, "empty_stars": s.empty_stars, "empty_alts": s.empty_alts, "empty_alts_vec": s.empty_alts_vec})).collect::<Vec<_>>()}),
             });
             rep.count("modules", 1);
@@ -195,6 +202,13 @@ pub fn main(a: &Args) {
         let n = a.n.unwrap_or(3);
         let mut made = 0;
         let mut tries = 0;
+        if a.shard % 4 == 1 {
+            let g = gen_lex_amb(&mut rng);
+            let sents: Vec<Sentence> = sentences(&g, &mut rng, 14).into_iter().filter(|s| s.content.len() <= 3).collect();
+            if sents.len() >= 2 {
+                emit(&mut krate, &g, &sents, &mut rep, 900 + 1000 * a.shard as usize, true);
+            }
+        }
         while made < n && tries < n * 30 {
             tries += 1;
             let mut g = gen_ast(&mut rng);
@@ -218,7 +232,7 @@ pub fn main(a: &Args) {
                 continue;
             }
             let before = krate.modules.len();
-            emit(&mut krate, &g, &sents, &mut rep, made + 1000 * a.shard as usize);
+            emit(&mut krate, &g, &sents, &mut rep, made + 1000 * a.shard as usize, false);
             if krate.modules.len() > before {
                 made += 1;
             }
